@@ -261,6 +261,11 @@ func lastSeg(s string) string {
 // callees outside the package do not modify them).
 func (e *Engine) havocComp(st *State, c string) {
 	vc := e.vc
+	if pk, ok := e.privFields[c]; ok && e.topFrame != nil && e.topFrame.fn.Pkg != nil && pk == e.topFrame.fn.Pkg.Pkg.Path() {
+		// unexported field of a type of the package under verification: code outside the package cannot write it
+		vc.assumes["calls outside the package do not modify unexported fields of the package's own types"] = true
+		return
+	}
 	old := e.get(st, c)
 	nw := vc.fresh("hv$"+c, e.compSort[c])
 	if strings.HasPrefix(e.compSort[c], "(Array Loc ") && len(e.privGlobals) > 0 {
